@@ -22,7 +22,10 @@
 
 package crdt
 
-import "time"
+import (
+	"math"
+	"time"
+)
 
 // ensure LWWRegister implements ReplicatedData at compile time.
 var _ ReplicatedData = (*LWWRegister)(nil)
@@ -56,6 +59,14 @@ func (r *LWWRegister) Set(value any, timestamp time.Time, nodeID string) *LWWReg
 	ts := timestamp.UnixNano()
 	if ts < r.timestamp || (ts == r.timestamp && nodeID < r.nodeID) {
 		return r.Clone().(*LWWRegister)
+	}
+	// A second write by the same node within the same clock reading must not reuse the
+	// stamp of the first one: Merge resolves a full (timestamp, nodeID) tie in favour of
+	// its receiver, so two different values under one stamp would make a.Merge(b) and
+	// b.Merge(a) expose different values and replicas would never converge. Order the
+	// new write right after the stored one instead (a per-writer logical tick).
+	if ts == r.timestamp && nodeID == r.nodeID && ts < math.MaxInt64 {
+		ts++
 	}
 	return &LWWRegister{
 		value:     value,
